@@ -461,6 +461,54 @@ def run(ctx):
                          "the expansion of `%s` is rejected by the reference parser: %s" % (line.strip(), err.strip()[-200:]), {"line": line})
             ctx.extra["dbus_expansions_parsed"] = len(items)
             shutil.rmtree(ov, ignore_errors=True)
+    # (3) several directives in one file, one line being the beginning of another (`name=org.x.A` / `name=org.x.A.Control`,
+    # `#aa:exec gpg` / `#aa:exec gpg-agent`): each must expand to what it expands to alone, at its own place
+    if bench:
+        b = bench[0]
+        aad = b.aad
+        profs = [p for p in matrix.top_profiles(aad) if not p.endswith(".apparmor.d") and "@{exec_path}" in matrix.read(os.path.join(aad, p))]
+        byname = set(profs)
+        ext = sorted((p, q) for p in profs for q in (p + "-agent", p + "-daemon", p + "-helper", p + "d", p + "-gui", p + "2") if q in byname)
+        pairs = []
+        for _ in range(40 if ctx.tier == "quick" else 800):
+            a = [x for x in gen_dbus(rng).split() if not x.startswith("interface")]
+            if a[0] == "common":
+                a[0] = "own"
+            nm = [x for x in a if x.startswith("name=")][0]
+            rest = [x for x in a if x != nm]
+            l1 = "  #aa:dbus " + " ".join(rest + [nm])
+            pairs.append(("dbus", l1, l1 + rng.choice([".Control", ".Helper1", "2"])))
+        for (p_, q_) in rng.sample(ext, min(len(ext), 12 if ctx.tier == "quick" else 200)):
+            tr = rng.choice(["", "P ", "U "])
+            pairs.append(("exec", "  #aa:exec " + tr + p_, "  #aa:exec " + tr + q_))
+        reqs = []
+        for i, (kind, l1, l2) in enumerate(pairs):
+            order = [l1, l2] if i % 2 == 0 else [l2, l1]
+            for j, lines in enumerate(([l1], [l2], order)):
+                reqs.append({"id": "%d.%d" % (i, j), "do": "directive", "root": b.root, "abi": int(b.cfg.abi), "version": float(b.cfg.ver),
+                             "file": os.path.join(aad, "verifhost"), "text": host_for("\n\n".join(lines))})
+        reps = worker.run_isolating(ctx, "prebuild", reqs, lambda r, e: None, extra_env={"DISTRIBUTION": b.cfg.dist}, timeout=900)
+        for i, (kind, l1, l2) in enumerate(pairs):
+            r1, r2, r12 = reps[3 * i:3 * i + 3]
+            ctx.case(digest(b.cfg.id, "pair", l1, l2))
+            if not all("ok" in r for r in (r1, r2, r12)):
+                if any(worker.timed_out(ctx, r) for r in (r1, r2, r12)):
+                    continue
+                if "ok" in r1 and "ok" in r2:
+                    viol("C07/%s/error/two-directives" % kind, b.cfg.id + "[gen-pair]", "directive.Run failed on a file holding `%s` and `%s`: %s" % (
+                        l1.strip(), l2.strip(), r12.get("error") or r12.get("panic")), {"lines": [l1, l2]})
+                continue
+            g1 = generated_region(host_for(l1), r1["ok"]["outs"][0], l1)
+            g2 = generated_region(host_for(l2), r2["ok"]["outs"][0], l2)
+            if g1 is None or g2 is None:
+                continue
+            order = [l1, l2] if i % 2 == 0 else [l2, l1]
+            exp = host_for("\n\n".join("\n".join(g1 if l is l1 else g2) for l in order))
+            if r12["ok"]["outs"][0] != exp:
+                viol("C07/%s/expansion-depends-on-another-directive" % kind, b.cfg.id + "[gen-pair]",
+                     "in a file holding `%s` and `%s` the expansions are not the ones each directive yields alone" % (l1.strip(), l2.strip()),
+                     {"lines": order, "out": r12["ok"]["outs"][0], "expected": exp})
+        ctx.extra["two_directive_hosts"] = len(pairs)
     for b in builds:
         shutil.rmtree(b.root, ignore_errors=True)
     for key, lst in sorted(agg.items()):
